@@ -21,7 +21,7 @@ def run(ctx):
     rule = ('every angle kernel (8 constructor forms, 6 member forms on plain vectors/directions, and Angle(Q,Q) / q.Angle(q) of every '
             'vector-valued quantity type found by probing) x 3 numeric types x pair families: all (a, +-k a) for a in {-4..4}^D, '
             'k in {1,2,3,1/2,2^20,2^-20}; nearly parallel a + 2^-k e_j for all k up to the mantissa width; all pairs of {-2..2}^D; '
-            'each under power-of-two rescalings of either argument. Oracle: not NaN, within [0, pi], bitwise symmetric, bitwise '
+            'each under power-of-two rescalings of either argument. Oracle: not NaN, within [0, pi], symmetric within the tolerance, bitwise '
             'invariant under power-of-two rescaling, |theta - atan2(|a x b|, a.b)| <= 1e-3/1e-7/1e-9 (float/double/long double) '
             'with the reference in __float128. distinct_nontrivial = evaluations in the parallel/antiparallel/nearly-parallel families')
     return vf.finish(ctx, 'exploration', rule, h.stat('angles'), h.stat('nontrivial_angles'), True,
